@@ -54,6 +54,12 @@ class MidiTrack(list):
     def __mul__(self, other):
         return self.__class__(list.__mul__(self, other))
 
+    def __imul__(self, other):
+        # Without this "track *= n" is "track = track * n": a new track,
+        # and the one the caller (or a MidiFile) holds is left unchanged.
+        list.__imul__(self, other)
+        return self
+
     def __repr__(self):
         if len(self) == 0:
             messages = ''
